@@ -161,11 +161,15 @@ impl Runner {
 
     /// two definitions must map the probe to bit-identical results in both directions
     fn same(&mut self, a: &str, b: &str, suite: &str) {
+        self.same_dirs(a, b, suite, &["F", "I"])
+    }
+
+    fn same_dirs(&mut self, a: &str, b: &str, suite: &str, dirs: &[&str]) {
         self.cases += 1;
         let (Ok(Ok(ha)), Ok(Ok(hb))) = (self.op(a), self.op(b)) else {
             return self.fail(json!({"suite":suite,"a":a,"b":b,"what":"rejected"}));
         };
-        for dn in ["F", "I"] {
+        for dn in dirs.iter().copied() {
             let ra = self.apply(ha, dir_of(dn), PROBE);
             let rb = self.apply(hb, dir_of(dn), PROBE);
             match (ra, rb) {
@@ -232,7 +236,13 @@ pub fn replay(input: &str, output: &str) -> i32 {
                 }
             }
             "same" => {
-                r.same(v["a"].as_str().unwrap(), v["b"].as_str().unwrap(), "shared-mapping");
+                // "fwd": only the forward mappings are shared (two operators' inverses of a
+                // scaling need not round identically); default: both directions
+                if v["dirs"] == "F" {
+                    r.same_dirs(v["a"].as_str().unwrap(), v["b"].as_str().unwrap(), "shared-mapping", &["F"]);
+                } else {
+                    r.same(v["a"].as_str().unwrap(), v["b"].as_str().unwrap(), "shared-mapping");
+                }
             }
             "word" => {
                 let wv = v["valid"].as_bool().unwrap();
